@@ -61,6 +61,42 @@ class SchedLock:
         return self.owner is not None
 
 
+class SchedDict(dict):
+    """A per-transport table of the server (half-received binary packets,
+    environ): every access is a pre-emption point."""
+
+    def __init__(self, sched, init, label):
+        super().__init__(init)
+        self._sched, self._label = sched, label
+
+    def _y(self, what):
+        self._sched.yield_point('%s.%s' % (self._label, what))
+
+    def get(self, *a):
+        self._y('get')
+        return super().get(*a)
+
+    def pop(self, *a):
+        self._y('pop')
+        return super().pop(*a)
+
+    def __contains__(self, k):
+        self._y('in')
+        return super().__contains__(k)
+
+    def __getitem__(self, k):
+        self._y('getitem')
+        return super().__getitem__(k)
+
+    def __setitem__(self, k, v):
+        self._y('setitem')
+        return super().__setitem__(k, v)
+
+    def __delitem__(self, k):
+        self._y('delitem')
+        return super().__delitem__(k)
+
+
 class World:
     """A fresh threaded server with one client connected to '/' and '/b'."""
 
@@ -125,6 +161,10 @@ class World:
             sched.yield_point('eio.send_packet')
             return orig_send(sid, pkt)
         eio.send_packet = send_packet
+        sio = self.d.sio
+        sio._binary_packet = SchedDict(sched, sio._binary_packet,
+                                       'binary_packet')
+        sio.environ = SchedDict(sched, sio.environ, 'environ')
 
     def actor(self, cause):
         d, t = self.d, self.t
@@ -152,6 +192,11 @@ class NoSched:
 
 
 def unwrap(w):
+    sio = w.d.sio
+    if isinstance(sio._binary_packet, SchedDict):
+        sio._binary_packet = dict(sio._binary_packet)
+    if isinstance(sio.environ, SchedDict):
+        sio.environ = dict(sio.environ)
     m = w.d.sio.manager
     for name in MGR_METHODS:
         if name in m.__dict__:
@@ -338,7 +383,18 @@ def run_recon_schedule(ctx, causes, choices, rng, bound=None):
     if errs:
         wit['errors'] = [{'exc': e.get('exc'), 'tb': (e.get('tb') or '')[
             -1200:]} for e in errs[:3]]
-        ctx.violation(None, 'concurrent %s: exception escaped (%s)' % (
+        # the re-CONNECT processed while the transport is being torn down
+        # (known mechanism): when the teardown has already dropped the
+        # transport's environ the session is registered and then abandoned
+        # with a KeyError instead of being accepted
+        key = None
+        if lost and 'recon' in causes and all(
+                e.get('exc') == 'KeyError' and
+                '_handle_connect' in (e.get('tb') or '') and
+                'self.environ[eio_sid]' in (e.get('tb') or '')
+                for e in errs):
+            key = 'session-accepted-during-transport-teardown'
+        ctx.violation(key, 'concurrent %s: exception escaped (%s)' % (
             ' || '.join(causes), errs[0].get('exc')), wit)
         return trace, 'exception'
     sids = [(p['data']['sid'], p['nsp']) for p in t.packets
@@ -479,6 +535,7 @@ def run(ctx):
     ctx.require('schedules_run', 100)
     ctx.require('outcome_clean', 10)
     ctx.require('line_level_schedules', 50)
+    ctx.require('context_bounded_schedules', 50)
     base = baseline_size()
     pairs = list(itertools.combinations(CAUSES, 2))
     triples = list(itertools.combinations(CAUSES, 3))
@@ -496,6 +553,31 @@ def run(ctx):
                                     120 if ctx.tier == 'quick' else 8000)
         ctx.extra['recon_scenarios']['+'.join(causes)] = {
             'schedules': n, 'complete': complete}
+    # iterative context bounding: first every schedule with at most one,
+    # then at most two pre-emptions (one actor parked at any of its yield
+    # points while another runs to completion: the classic atomicity
+    # windows), for every pair and triple, with and without a half-received
+    # binary packet; the unbounded searches follow
+    ctx.extra['context_bounded'] = {}
+    for bound in (1, 2):
+        for i, (causes, _) in enumerate(jobs):
+            if i % ctx.nshards != ctx.shard and ctx.nshards > 1:
+                continue
+            for pb in (False, True):
+                if pb and not set(causes) <= {'server_disconnect',
+                                              'transport_loss'}:
+                    continue
+                if ctx.out_of_time():
+                    break
+                n, complete = explore_dfs(
+                    ctx, causes, bound, base,
+                    (400 if bound == 1 else 250) if ctx.tier == 'quick'
+                    else 20000, pending_binary=pb)
+                ctx.count('context_bounded_schedules', n)
+                ctx.extra['context_bounded'][
+                    '+'.join(causes) + (' (partial binary packet)' if pb
+                                        else '') + ' <=%d' % bound] = {
+                    'schedules': n, 'complete': complete}
     # a half-received binary packet is pending while the client is terminated
     for causes in (['server_disconnect', 'transport_loss'],):
         if ctx.shard == 0 and not ctx.out_of_time():
